@@ -446,7 +446,10 @@ impl From<SPDC> for IdlerConfig {
       theta_external_deg: None,
       phi_deg: sigfigs(*(spdc.idler.phi() / DEG), SIG_FIGS_IN_CONFIG),
       waist_um: sigfigs(*(spdc.idler.waist().x / (MICRO * M)), SIG_FIGS_IN_CONFIG),
-      waist_position_um: AutoCalcParam::Param(*(spdc.idler_waist_position / (MICRO * M))),
+      waist_position_um: AutoCalcParam::Param(sigfigs(
+        *(spdc.idler_waist_position / (MICRO * M)),
+        SIG_FIGS_IN_CONFIG,
+      )),
     }
   }
 }
@@ -494,7 +497,10 @@ impl From<SPDC> for SPDCConfig {
       theta_external_deg: None,
       phi_deg: sigfigs(*(spdc.idler.phi() / DEG), SIG_FIGS_IN_CONFIG),
       waist_um: sigfigs(*(spdc.idler.waist().x / (MICRO * M)), SIG_FIGS_IN_CONFIG),
-      waist_position_um: AutoCalcParam::Param(*(spdc.idler_waist_position / (MICRO * M))),
+      waist_position_um: AutoCalcParam::Param(sigfigs(
+        *(spdc.idler_waist_position / (MICRO * M)),
+        SIG_FIGS_IN_CONFIG,
+      )),
     });
 
     let periodic_poling = spdc.pp.into();
